@@ -497,6 +497,12 @@ func EnumPathsSeed(start *ssa.BasicBlock, idx int, limit int, maxVisits int, see
 		if over {
 			return
 		}
+		if pathStop != nil && len(frames) == 0 && b != start && pathStop(b) {
+			// the rule is not interested in what happens from here on: the path ends at the block's entry
+			p.Blocks = append(p.Blocks, b)
+			finish(p, b.Instrs[0], false)
+			return
+		}
 		visited[b]++
 		defer func() { visited[b]-- }()
 		p.Blocks = append(p.Blocks, b)
@@ -1031,4 +1037,19 @@ func globalAssignedOnlyInInit(g *ssa.Global) bool {
 	}
 	globalInitOnly[g] = ok
 	return ok
+}
+
+
+// pathStop, when set, cuts every path at the entry of a block it accepts (see EnumPathsStop).
+var pathStop func(b *ssa.BasicBlock) bool
+
+// EnumPathsStop is EnumPathsN for a rule that only cares about a prefix of the
+// function: a path ends (End = first instruction of the block) as soon as it
+// enters a block of the start function for which stop answers true. Used to
+// keep the number of paths down in long functions made of independent ifs.
+func EnumPathsStop(start *ssa.BasicBlock, idx int, limit int, maxVisits int, stop func(b *ssa.BasicBlock) bool, yield func(*Path)) bool {
+	old := pathStop
+	pathStop = stop
+	defer func() { pathStop = old }()
+	return EnumPathsSeed(start, idx, limit, maxVisits, nil, yield)
 }
